@@ -1,7 +1,45 @@
 import SurfModel.Proto
 import SurfModel.Automata
 import SurfModel.Utf8
-def main : IO Unit := SurfModel.Proto.serve fun
-  | "c02" :: rest => SurfModel.Utf8.handle rest
-  | "c15" :: rest => SurfModel.Automata.handle rest
-  | _ => "bad-op"
+import SurfModel.Grammar
+import SurfModel.Payload
+import SurfModel.Decoders
+/-! Driver for C02: `c02 …` → UTF-8 models (`SurfModel.Utf8`) and, with the dumped production automata
+installed by `c02 table …`, the whole decoders (`SurfModel.Decoders`); `c15 …` → bisimulation of the compiled
+UTF-8 automaton; `gram …` / `pay …` → grammar dumps and payload decoders shared with C04. -/
+open SurfModel
+
+partial def loopC02 (ts : Decoders.Tables) (h out : IO.FS.Stream) : IO Unit := do
+  let line ← h.getLine
+  if line.isEmpty then return ()
+  match Proto.tokens line with
+  | "c02" :: "table" :: rest =>
+    let (ts', answer) := Decoders.handle ts ("table" :: rest)
+    out.putStrLn answer
+    loopC02 ts' h out
+  | "c02" :: "ev" :: rest =>
+    out.putStrLn (Decoders.handle ts ("ev" :: rest)).2
+    loopC02 ts h out
+  | "c02" :: "cmd" :: rest =>
+    out.putStrLn (Decoders.handle ts ("cmd" :: rest)).2
+    loopC02 ts h out
+  | "c02" :: rest =>
+    out.putStrLn (Utf8.handle rest)
+    loopC02 ts h out
+  | "c15" :: rest =>
+    out.putStrLn (Automata.handle rest)
+    loopC02 ts h out
+  | "gram" :: rest =>
+    out.putStrLn (Grammar.handle rest)
+    loopC02 ts h out
+  | "pay" :: rest =>
+    out.putStrLn (Payload.handle rest)
+    loopC02 ts h out
+  | _ =>
+    out.putStrLn "bad-op"
+    loopC02 ts h out
+
+def main : IO Unit := do
+  let out ← IO.getStdout
+  loopC02 {} (← IO.getStdin) out
+  out.flush
